@@ -544,5 +544,5 @@ func classify(c Case) fx.Class {
 
 func TestHistories(t *testing.T) {
 	fx.Prelease(3)
-	fx.Run(t, fx.Spec[Case]{Prop: "C12", Name: "histories", Quick: 2400, Thorough: 60000, Journal: true, Gen: gen, Run: run, Class: classify})
+	fx.Run(t, fx.Spec[Case]{Prop: "C12", Name: "histories", Quick: 2400, Thorough: 60000, Journal: true, Retry: true, Gen: gen, Run: run, Class: classify})
 }
